@@ -263,6 +263,8 @@ def shards(tier, seed):
         for cost, msl in (("L2", 1), ("L2", 2), ("GaussianVar", 2)):
             if n >= 2 * msl:
                 sh.append(("data2", (n, cost, msl, 0.05), 0, 4 ** n))
+    for n, cost, msl in ((6, "L2", 1), (7, "L2", 2), (7, "GaussianVar", 2)):
+        sh.append(("data3", (n, cost, msl, 0.1), 0, 2 ** n))
     # medium-length series: all placements of <= 2 (3) changes, larger min_segment_length
     for n in (12, 16, 20) if tier == "quick" else (12, 16, 20, 24, 32):
         for cost, msl, scale in (("L2", 1, 1.0), ("L2", 4, 0.5), ("L2", 5, 0.05), ("GaussianVar", 4, 0.5), ("GaussianVar", 6, 0.2)):
@@ -316,6 +318,10 @@ def run_shard(shard):
         for cps, xs in util.structured_series(n, 3, (0.0, 3.0, -2.0)) if msl >= 4 else ():
             if len(cps) == 3 and all(b - a >= msl for a, b in zip((0,) + cps, cps + (n,))) and (cps[0] + cps[2]) % 3 == 0:
                 check_case(acc, {"mode": "data", "x": list(xs), "cost": cost, "msl": msl, "scale": scale})
+    elif kind == "data3":
+        n, cost, msl, scale = cfg
+        for xs in itertools.islice(itertools.product((0, 3), repeat=n), lo, hi):
+            check_case(acc, {"mode": "data", "x": util.three_columns(xs), "cost": cost, "msl": msl, "scale": scale})
     elif kind == "datafit":
         n, cost, msl, scale, k = cfg
         for xs in itertools.islice(itertools.product((0, 1, 3), repeat=n), lo, hi):
